@@ -123,6 +123,10 @@ func checkC20(r *core.Result) {
 	tagPathMatchRule(r, prog, pd)
 	nT7 := protodumpPanicFreeCalls(r, prog, pd)
 	r.Floor("library calls with a non-negative-count precondition in protodump", nT7, 1)
+	r.Floor("protodump functions with a slice parameter", protodumpNoRetain(r, prog, pd), 3)
+	mustFire(r, "T12", `package fx
+type T struct{ last []int }
+func (t *T) M(p []int) bool { q := p[:1]; t.last = q; return len(q) > 0 }`, func(fr *core.Result, fprog *core.Program, fpk *packages.Package) { protodumpNoRetain(fr, fprog, fpk) })
 	pt := prog.Pkg("prototest")
 	if pd == nil || pt == nil {
 		r.Infra("packages cmd/protodump / prototest not loaded")
@@ -1181,4 +1185,98 @@ func tagPathMatchRule(r *core.Result, prog *core.Program, pd *packages.Package) 
 	}
 	r.Ob("T11", "tagPath.Matches :: element 0 of a configured path matches every field number", prog.Pos(loop.Pos()), wild && nRet > 0,
 		"the documentation of tagPath gives 0 the meaning `all fields at that level` and Set accepts it, but "+why+": `-expand 0` never matches a field")
+}
+
+// protodumpNoRetain (T12): the dump loop builds the path of each field with append(parent, tag), so the paths of
+// sibling fields can share one backing array; a path handed to a function is therefore valid only during the call.
+// No function of the package stores a slice-typed parameter (or a reslice of it, or a local assigned from it) in a
+// struct field or a package-level variable - it would change under the holder when the next sibling is visited.
+func protodumpNoRetain(r *core.Result, prog *core.Program, pd *packages.Package) int {
+	info := pd.TypesInfo
+	n := 0
+	for _, f := range core.Funcs(pd) {
+		if f.Decl == nil || f.Decl.Body == nil {
+			continue
+		}
+		params := map[types.Object]bool{}
+		for _, fl := range f.Decl.Type.Params.List {
+			for _, nm := range fl.Names {
+				if o := info.Defs[nm]; o != nil {
+					if _, ok := o.Type().Underlying().(*types.Slice); ok {
+						params[o] = true
+					}
+				}
+			}
+		}
+		if len(params) == 0 {
+			continue
+		}
+		n++
+		// locals assigned from a parameter (to a fixed point)
+		tainted := func(e ast.Expr) bool {
+			for {
+				switch x := ast.Unparen(e).(type) {
+				case *ast.SliceExpr:
+					e = x.X
+					continue
+				case *ast.Ident:
+					return params[info.Uses[x]]
+				}
+				return false
+			}
+		}
+		for changed := true; changed; {
+			changed = false
+			ast.Inspect(f.Decl.Body, func(nd ast.Node) bool {
+				as, ok := nd.(*ast.AssignStmt)
+				if !ok || len(as.Lhs) != len(as.Rhs) {
+					return true
+				}
+				for i, l := range as.Lhs {
+					if id, ok := l.(*ast.Ident); ok && tainted(as.Rhs[i]) {
+						o := info.Defs[id]
+						if o == nil {
+							o = info.Uses[id]
+						}
+						if v, ok := o.(*types.Var); ok && !params[o] && v.Parent() != v.Pkg().Scope() {
+							params[o] = true
+							changed = true
+						}
+					}
+				}
+				return true
+			})
+		}
+		kept := ""
+		var at token.Pos
+		ast.Inspect(f.Decl.Body, func(nd ast.Node) bool {
+			as, ok := nd.(*ast.AssignStmt)
+			if !ok || len(as.Lhs) != len(as.Rhs) {
+				return true
+			}
+			for i, l := range as.Lhs {
+				if !tainted(as.Rhs[i]) {
+					continue
+				}
+				switch x := l.(type) {
+				case *ast.SelectorExpr:
+					if sel := info.Selections[x]; sel != nil && sel.Kind() == types.FieldVal {
+						kept, at = types.ExprString(x)+" = "+types.ExprString(as.Rhs[i]), as.Pos()
+					}
+				case *ast.Ident:
+					if v, ok := info.Uses[x].(*types.Var); ok && v.Pkg() != nil && v.Parent() == v.Pkg().Scope() {
+						kept, at = types.ExprString(x)+" = "+types.ExprString(as.Rhs[i]), as.Pos()
+					}
+				}
+			}
+			return true
+		})
+		pos := f.Pos()
+		if at.IsValid() {
+			pos = at
+		}
+		r.Ob("T12", f.Name+" does not keep a slice it was handed", prog.Pos(pos), kept == "",
+			"`"+kept+"` keeps the caller's slice beyond the call: the dump loop builds sibling paths with append(parent, tag) on a shared backing array, so the kept path changes when the next sibling is visited")
+	}
+	return n
 }
